@@ -6,6 +6,8 @@
 
 package py
 
+import "math/big"
+
 // A python Slice object
 type Slice struct {
 	Start Object
@@ -48,6 +50,22 @@ func SliceNew(metatype *Type, args Tuple, kwargs StringDict) (Object, error) {
 	return NewSlice(start, stop, step), nil
 }
 
+// sliceIndex converts a slice bound to an int.  As CPython's
+// _PyEval_SliceIndex does, an integer too large for an int is clipped
+// to the largest (smallest) int rather than rejected.
+func sliceIndex(a Object) (int, error) {
+	if b, ok := a.(*BigInt); ok {
+		if _, err := b.Int(); err != nil {
+			const maxInt = int(^uint(0) >> 1)
+			if (*big.Int)(b).Sign() < 0 {
+				return -maxInt - 1, nil
+			}
+			return maxInt, nil
+		}
+	}
+	return IndexInt(a)
+}
+
 // GetIndices
 //
 // Retrieve the start, stop, and step indices from the slice object
@@ -60,7 +78,7 @@ func (r *Slice) GetIndices(length int) (start, stop, step, slicelength int, err 
 	if r.Step == None {
 		step = 1
 	} else {
-		step, err = IndexInt(r.Step)
+		step, err = sliceIndex(r.Step)
 		if err != nil {
 			return
 		}
@@ -90,7 +108,7 @@ func (r *Slice) GetIndices(length int) (start, stop, step, slicelength int, err 
 	if r.Start == None {
 		start = defstart
 	} else {
-		start, err = IndexInt(r.Start)
+		start, err = sliceIndex(r.Start)
 		if err != nil {
 			return
 		}
@@ -117,7 +135,7 @@ func (r *Slice) GetIndices(length int) (start, stop, step, slicelength int, err 
 	if r.Stop == None {
 		stop = defstop
 	} else {
-		stop, err = IndexInt(r.Stop)
+		stop, err = sliceIndex(r.Stop)
 		if err != nil {
 			return
 		}
